@@ -7,7 +7,11 @@ CONSTANTS
  KeepHist = FALSE
  MapOps = TRUE
  SetOps = TRUE
-INVARIANTS NoOrphan SomeLive
-PROPERTIES Independence CloneFresh
+ Focus = FALSE
+ Plain = TRUE
+ Sizes = {}
+ Lists = {}
+INVARIANTS NoOrphan SomeLive EnumTypeOK EnumPartition
+PROPERTIES Independence CloneFresh EnumStable EnumReads
 POSTCONDITION TraceAccepted
 CHECK_DEADLOCK FALSE
